@@ -331,6 +331,9 @@ class Interp:
         if k == 'array':
             ln = self.const_term(st, ty['len'], gs)
             st.zone.touch(ln)
+            if depth == 0:
+                # an array handed in by the caller: pairwise comparisons of its elements are tracked
+                st.pairs.setdefault(tag, (0, 1, ln))
             return ('oarr', tag, ln)
         if k == 'adt':
             path = ty['path']
@@ -516,7 +519,12 @@ class Interp:
                 else:
                     v = ('opq', (v[0], e))
             else:  # ('idx', t)
-                if v[0] in ('oarr', 'oslice'):
+                if v[0] == 'oarr':
+                    v = ('opq', ('elem', v[1], e[1]))
+                elif v[0] == 'oslice' and len(v) == 5:
+                    v = ('opq', ('elem', v[1], self.add_terms(st, v[3], e[1])
+                                 if not (isinstance(v[3], int) and v[3] == 0) else e[1]))
+                elif v[0] in ('oarr', 'oslice'):
                     v = ('opq', v[1] + ('[]',))
                 elif v[0] == 'opq':
                     v = ('opq', v[1] + ('[]',))
@@ -761,6 +769,11 @@ class Interp:
         if not (isinstance(tag, tuple) and tag and tag[0] == 'eq' and len(tag) == 3):
             return
         a, b = tag[1], tag[2]
+        ea, eb = self.strip_borrow(a), self.strip_borrow(b)
+        if isinstance(ea, tuple) and isinstance(eb, tuple) and len(ea) == 3 and len(eb) == 3 \
+                and ea[0] == 'elem' and eb[0] == 'elem' and ea[1] == eb[1]:
+            self.note_pair(st, ea[1], ea[2], eb[2], truth)
+            return
         sa, sb = self.slot_key_side(a), self.slot_key_side(b)
         if sa is not None and sb is not None and sa[0] != sb[0]:
             # keys of two containers are compared: the container being scanned is the one whose
@@ -797,6 +810,55 @@ class Interp:
         else:
             st.log('scan-lost', mid, idx, ex, other, ('keyeq', ex is not None and tag_eq(z, ex[0], other)), ('idx-hi', ex and z.d.get((idx, ex[2])), ex and z.d.get((ex[2], idx))))
             ms.examined = None
+
+    def note_pair(self, st, tg, a, b, truth):
+        """elements a and b of the opaque array `tg` were compared; `different` extends the record
+        (x, y, J): every pair with first index < x was compared, and (x, c) for x < c < y"""
+        if truth:
+            st.log('pair-equal', tg, a, b)
+            return
+        z = st.zone
+        rec = st.pairs.get(tg)
+        if rec is None:
+            return
+        self.norm_pairs(st)
+        x, y, J = st.pairs[tg]
+        if z.entails_lt(b, a):
+            a, b = b, a
+        elif not z.entails_lt(a, b):
+            st.pairs[tg] = None
+            st.log('pairs-lost', tg, 'unordered comparison')
+            return
+        if z.entails_eq(a, x) and z.entails_eq(b, y):
+            st.pairs[tg] = (x, slots.plus(st, b, 1), J)
+            return
+        if z.entails_lt(a, x) or (z.entails_eq(a, x) and z.entails_lt(b, y)):
+            return
+        st.pairs[tg] = None
+        st.log('pairs-lost', tg, 'comparison (%s,%s) does not extend the compared prefix (%s,%s)' % (a, b, x, y))
+
+    def norm_pairs(self, st):
+        """a completed row x (y == J) is the same record as the empty beginning of row x + 1"""
+        z = st.zone
+        for tg, rec in list(st.pairs.items()):
+            if rec is None:
+                continue
+            x, y, J = rec
+            if z.entails_eq(y, J) and z.entails_lt(x, J):
+                nx = slots.plus(st, x, 1)
+                st.pairs[tg] = (nx, slots.plus(st, nx, 1), J)
+
+    def pairs_complete(self, st, tg):
+        """were all pairs i < j < J of the opaque array compared (and found different)?"""
+        rec = st.pairs.get(tg, 'absent')
+        z = st.zone
+        if rec == 'absent':
+            return None
+        if rec is None:
+            return False
+        self.norm_pairs(st)
+        x, y, J = st.pairs[tg]
+        return z.entails_le(J, x, 1)
 
     def miss_complete(self, st, mid, upto=None):
         """-> key tag for which the whole live prefix [0, upto) was compared with answer "no"
